@@ -317,6 +317,13 @@ def check_C09(chk):
     nd, n = emit(chk, "c09_emit", consts(MaxFrames="= 2", Lens="<- L4820", Classes="<- ClsGate", Cap="= 24", FrameOK="<- FrameReal",
                                          EmSmallFills="= 1", EmSizes="<- S_4_19_20"))
     replay(chk, nd, chk.seed)
+    # the gate is a property of the connection, not of what the program says about itself: Framed::handshake with an IS_ISI of any
+    # version (LfsConn.DoHandshake = the write of one 44-byte frame, cfg untouched), then VER frames of both kinds, gate on and off
+    mc(chk, "c09_handshake", consts(MaxFrames="= 2", Classes="<- ClsGate", MaxWrites="= 1", WLens="<- W44"), needs=("DoHandshake", "TryDecode"))
+    nd, n = emit(chk, "c09_emit_hs", consts(MaxFrames="= 1", Lens="<- L4820", Classes="<- ClsGate", Cap="= 24", FrameOK="<- FrameReal",
+                                            MaxWrites="= 1", WLens="<- W44", EmSmallFills="= 0", EmSizes="<- S_4_19_20"))
+    for k in range(6):      # six handshakes with different version fields / options per behaviour
+        replay(chk, nd, chk.seed + 7 + k)
     p = os.path.join(WORK, "c09_sweep.ndjson")
     out = harness(["conn-sweep", "--what", "version", "--out", p, "--seed", str(chk.seed)])
     chk.extra["sweep"] = json.loads(out.strip().splitlines()[-1])
